@@ -6,12 +6,12 @@ import os
 from tfv import core
 from tfv.core import Violation, run_async
 from tfv.gen import gen_const_value, gen_schema, gen_split, literal_to_json
-from tfv.impl import Harness, clean_registry
+from tfv.impl import ArgHarness, Harness, clean_registry
 from tfv.model import canon, kind_of, print_document, ty, ty_str, value_vars
 from tfv.props import c04
 from tfv.ref import ABSENT, RefInputError, coerce_argument_values, coerce_literal, coerce_variable_values
 
-from tartiflette import Directive, Subscription
+from tartiflette import Directive
 
 ID = "C05"
 LEVEL = "exploration"
@@ -31,27 +31,6 @@ RULE = (
     "Distinct = SHA-1 of (type, value, ways); non-trivial = delivered by >= 2 different ways and the type is not a bare built-in scalar."
 )
 ASSUMPTIONS = c04.ASSUMPTIONS + ["SDL-side default values use no block strings (tartiflette's SDL parser keeps block strings raw; see DESIGN)"]
-
-
-class ArgHarness(Harness):
-    """adds a @Subscription source per field of the subscription root (if any): logs the arguments it was created
-    with (kept for scramble_live, like the resolvers' dictionaries) and yields one event"""
-
-    def registration_steps(self):
-        steps = super().registration_steps()
-        root = self.schema["roots"].get("subscription")
-        H = self
-
-        def mk(fn):
-            async def source(parent, args, ctx, info):
-                H.sargs.append((fn, copy.deepcopy(args)))
-                H.live_args.append(args)
-                yield {}
-            return source
-
-        for fn in (self.schema["types"][root]["fields"] if root else ()):
-            steps.append(lambda fn=fn: Subscription("%s.%s" % (root, fn), schema_name=self.name)(mk(fn)))
-        return steps
 
 
 def sub_positions(schema, t, lit, path=()):
